@@ -1,4 +1,5 @@
 //! vtv — runtime monitors for the versatiles-rs properties C01…C20 (see /verif/DESIGN.md).
+pub mod alloc;
 pub mod check;
 pub mod codec;
 pub mod comp;
